@@ -5,22 +5,22 @@ From Cinco Require Import Base Config ConfigInst ConfigLemmas ConfigWF ConfigIns
 Import ListNotations.
 
 Theorem C01_build_cfg_wf :
-  forall (F : Type) (ldefault : F -> N -> pyval) (lcallable : F -> bool) (lmeets : F -> pyval -> Prop), (forall (f : F) (n : N), lmeets f (ldefault f n)) -> forall (fs : list (str * node F)) (w : world), ok_fields F fs -> wf_cfg F lmeets fs (snd (build_cfg F ldefault lcallable w fs)).
+  forall (F : Type) (lvalidate lto_python : F -> pyval -> res pyval) (ldefault : F -> N -> pyval) (lcallable lflag : F -> bool) (vrun : N -> list (str * pyval) -> bool) (lmeets : F -> pyval -> Prop), (forall (f : F) (x v : pyval), lvalidate f x = Ok v -> lmeets f v) -> (forall (f : F) (n : N), lmeets f (ldefault f n)) -> forall (fs : list (str * node F)) (w : world), ok_fields F lvalidate lto_python ldefault lcallable lflag vrun fs -> wf_cfg F lmeets fs (snd (build_cfg F lvalidate lto_python ldefault lcallable lflag vrun w fs)).
 Proof. exact build_cfg_wf. Qed.
 Print Assumptions C01_build_cfg_wf.
 
 Theorem C01_step_wf :
-  forall (F : Type) (lvalidate lto_python : F -> pyval -> res pyval) (ldefault : F -> N -> pyval) (lcallable lflag : F -> bool) (vrun : N -> list (str * pyval) -> bool) (lmeets : F -> pyval -> Prop), (forall (f : F) (x v : pyval), lvalidate f x = Ok v -> lmeets f v) -> (forall (f : F) (n : N), lmeets f (ldefault f n)) -> forall (ps : list pstep) (o : cop) (w : world) (pre : str) (c : icfg) (dyn : bool) (vs : list N) (fs : list (str * node F)) (w' : world) (c' : icfg) (oc1 : oc), ok_fields F fs -> wf_cfg F lmeets fs c -> at_path F lvalidate lto_python ldefault lcallable lflag vrun ps w pre c dyn vs fs o = (w', c', oc1) -> wf_cfg F lmeets fs c'.
+  forall (F : Type) (lvalidate lto_python : F -> pyval -> res pyval) (ldefault : F -> N -> pyval) (lcallable lflag : F -> bool) (vrun : N -> list (str * pyval) -> bool) (lmeets : F -> pyval -> Prop), (forall (f : F) (x v : pyval), lvalidate f x = Ok v -> lmeets f v) -> (forall (f : F) (n : N), lmeets f (ldefault f n)) -> forall (ps : list pstep) (o : cop) (w : world) (pre : str) (c : icfg) (dyn : bool) (vs : list N) (fs : list (str * node F)) (w' : world) (c' : icfg) (oc1 : oc), ok_fields F lvalidate lto_python ldefault lcallable lflag vrun fs -> wf_cfg F lmeets fs c -> obj_ok F lmeets fs ps o -> at_path F lvalidate lto_python ldefault lcallable lflag vrun ps w pre c dyn vs fs o = (w', c', oc1) -> wf_cfg F lmeets fs c'.
 Proof. exact step_wf. Qed.
 Print Assumptions C01_step_wf.
 
 Theorem C01_run_wf :
-  forall (F : Type) (lvalidate lto_python : F -> pyval -> res pyval) (ldefault : F -> N -> pyval) (lcallable lflag : F -> bool) (vrun : N -> list (str * pyval) -> bool) (lmeets : F -> pyval -> Prop), (forall (f : F) (x v : pyval), lvalidate f x = Ok v -> lmeets f v) -> (forall (f : F) (n : N), lmeets f (ldefault f n)) -> forall (ops : list (list pstep * cop)) (w : world) (c : icfg) (dyn : bool) (vs : list N) (fs : list (str * node F)), ok_fields F fs -> wf_cfg F lmeets fs c -> wf_cfg F lmeets fs (run F lvalidate lto_python ldefault lcallable lflag vrun ops w c dyn vs fs).
+  forall (F : Type) (lvalidate lto_python : F -> pyval -> res pyval) (ldefault : F -> N -> pyval) (lcallable lflag : F -> bool) (vrun : N -> list (str * pyval) -> bool) (lmeets : F -> pyval -> Prop), (forall (f : F) (x v : pyval), lvalidate f x = Ok v -> lmeets f v) -> (forall (f : F) (n : N), lmeets f (ldefault f n)) -> forall (ops : list (list pstep * cop)) (w : world) (c : icfg) (dyn : bool) (vs : list N) (fs : list (str * node F)), ok_fields F lvalidate lto_python ldefault lcallable lflag vrun fs -> wf_cfg F lmeets fs c -> objs_ok F lmeets fs ops -> wf_cfg F lmeets fs (run F lvalidate lto_python ldefault lcallable lflag vrun ops w c dyn vs fs).
 Proof. exact run_wf. Qed.
 Print Assumptions C01_run_wf.
 
 Theorem C01_reachable_wf :
-  forall (F : Type) (lvalidate lto_python : F -> pyval -> res pyval) (ldefault : F -> N -> pyval) (lcallable lflag : F -> bool) (vrun : N -> list (str * pyval) -> bool) (lmeets : F -> pyval -> Prop), (forall (f : F) (x v : pyval), lvalidate f x = Ok v -> lmeets f v) -> (forall (f : F) (n : N), lmeets f (ldefault f n)) -> forall (ops : list (list pstep * cop)) (w : world) (dyn : bool) (vs : list N) (fs : list (str * node F)), ok_fields F fs -> wf_cfg F lmeets fs (run F lvalidate lto_python ldefault lcallable lflag vrun ops (fst (build_cfg F ldefault lcallable w fs)) (snd (build_cfg F ldefault lcallable w fs)) dyn vs fs).
+  forall (F : Type) (lvalidate lto_python : F -> pyval -> res pyval) (ldefault : F -> N -> pyval) (lcallable lflag : F -> bool) (vrun : N -> list (str * pyval) -> bool) (lmeets : F -> pyval -> Prop), (forall (f : F) (x v : pyval), lvalidate f x = Ok v -> lmeets f v) -> (forall (f : F) (n : N), lmeets f (ldefault f n)) -> forall (ops : list (list pstep * cop)) (w : world) (dyn : bool) (vs : list N) (fs : list (str * node F)), ok_fields F lvalidate lto_python ldefault lcallable lflag vrun fs -> objs_ok F lmeets fs ops -> wf_cfg F lmeets fs (run F lvalidate lto_python ldefault lcallable lflag vrun ops (fst (build_cfg F lvalidate lto_python ldefault lcallable lflag vrun w fs)) (snd (build_cfg F lvalidate lto_python ldefault lcallable lflag vrun w fs)) dyn vs fs).
 Proof. exact reachable_wf. Qed.
 Print Assumptions C01_reachable_wf.
 
@@ -45,7 +45,7 @@ Proof. exact inst_validate_sound. Qed.
 Print Assumptions C01_inst_validate_sound.
 
 Theorem C01_inst_reachable_wf :
-  forall (vt : vtable) (ops : list (list pstep * cop)) (w : world) (dyn : bool) (vs : list N) (fs : list (str * inode)), (forall (f : leaf) (n : N), inst_meets f (ldefault f n)) -> ok_fields leaf fs -> wf_cfg leaf inst_meets fs (run leaf lvalidate lto_python ldefault l_callable lflag (vrun vt) ops (fst (build_cfg leaf ldefault l_callable w fs)) (snd (build_cfg leaf ldefault l_callable w fs)) dyn vs fs).
+  forall (vt : vtable) (ops : list (list pstep * cop)) (w : world) (dyn : bool) (vs : list N) (fs : list (str * inode)), (forall (f : leaf) (n : N), inst_meets f (ldefault f n)) -> ok_fields leaf lvalidate lto_python ldefault l_callable lflag (vrun vt) fs -> objs_ok leaf inst_meets fs ops -> wf_cfg leaf inst_meets fs (run leaf lvalidate lto_python ldefault l_callable lflag (vrun vt) ops (fst (build_cfg leaf lvalidate lto_python ldefault l_callable lflag (vrun vt) w fs)) (snd (build_cfg leaf lvalidate lto_python ldefault l_callable lflag (vrun vt) w fs)) dyn vs fs).
 Proof. exact inst_reachable_wf. Qed.
 Print Assumptions C01_inst_reachable_wf.
 
@@ -70,13 +70,26 @@ Print Assumptions C01_fields_validate_plain_input.
    Fields' `meets`, at every depth, given valid declared defaults *)
 Theorem C01_fields_reachable_wf :
   forall (orc : oracle) (vt : vtable) (ops : list (list pstep * cop)) (w : world) (dyn : bool) (vs : list N) (fs : list (str * fnode)),
-    (forall (f : fleaf) (n : N), cf_meets orc f (cf_default orc f n)) -> ok_fields fleaf fs ->
+    (forall (f : fleaf) (n : N), cf_meets orc f (cf_default orc f n)) -> ok_fields fleaf (cf_validate orc) (cf_to_python orc) (cf_default orc) fl_callable fl_flag (vrun vt) fs ->
+    objs_ok fleaf (cf_meets orc) fs ops ->
     wf_cfg fleaf (cf_meets orc) fs
       (run fleaf (cf_validate orc) (cf_to_python orc) (cf_default orc) fl_callable fl_flag (vrun vt) ops
-           (fst (build_cfg fleaf (cf_default orc) fl_callable w fs))
-           (snd (build_cfg fleaf (cf_default orc) fl_callable w fs)) dyn vs fs).
+           (fst (build_cfg fleaf (cf_validate orc) (cf_to_python orc) (cf_default orc) fl_callable fl_flag (vrun vt) w fs))
+           (snd (build_cfg fleaf (cf_validate orc) (cf_to_python orc) (cf_default orc) fl_callable fl_flag (vrun vt) w fs)) dyn vs fs).
 Proof. exact cf_reachable_wf. Qed.
 Print Assumptions C01_fields_reachable_wf.
+
+(* ... and over histories that build configuration objects on the side from the schema of the slot they are handed to *)
+Theorem C01_fields_reachable_x_wf :
+  forall (orc : oracle) (vt : vtable) (ops : list (list pstep * xop fleaf)) (w : world) (dyn : bool) (vs : list N) (fs : list (str * fnode)),
+    (forall (f : fleaf) (n : N), cf_meets orc f (cf_default orc f n)) -> ok_fields fleaf (cf_validate orc) (cf_to_python orc) (cf_default orc) fl_callable fl_flag (vrun vt) fs ->
+    xobjs_ok fleaf (cf_meets orc) fs ops ->
+    wf_cfg fleaf (cf_meets orc) fs
+      (run_x fleaf (cf_validate orc) (cf_to_python orc) (cf_default orc) fl_callable fl_flag (vrun vt) ops
+           (fst (build_cfg fleaf (cf_validate orc) (cf_to_python orc) (cf_default orc) fl_callable fl_flag (vrun vt) w fs))
+           (snd (build_cfg fleaf (cf_validate orc) (cf_to_python orc) (cf_default orc) fl_callable fl_flag (vrun vt) w fs)) dyn vs fs).
+Proof. exact cf_reachable_x_wf. Qed.
+Print Assumptions C01_fields_reachable_x_wf.
 
 (* the guard never fires on the load route either: to_python of plain document data yields plain data or a proxy of the
    field with validated items, on which the leaf validator is Fields.validate_with (outside the F13 region, where a
@@ -86,3 +99,74 @@ Theorem C01_fields_load_route_transparent :
     cf_to_python orc f xi = Ok x' -> cf_validate orc f x' = validate_with orc (fl_fld f) x'.
 Proof. exact cf_validate_after_to_python. Qed.
 Print Assumptions C01_fields_load_route_transparent.
+
+(* configuration objects handed over as they are (CSetObj / CAppendObj / CSetIdxObj / CInsertObj): step_wf / run_wf / reachable_wf above carry the side condition obj_ok (the object is well-formed for the fields of the slot it goes to); histories without such objects need nothing (plain_objs_ok); objects the model builds on the side from the slot's own schema meet it (detached_wf, resolve_obj_ok), which gives the unconditional statements over extended histories (step_x_wf, run_x_wf, reachable_x_wf) *)
+
+Theorem C01_plain_objs_ok :
+  forall (F : Type) (lmeets : F -> pyval -> Prop) (fs : list (str * node F)) (ops : list (list pstep * cop)), forallb (fun po : list pstep * cop => plain_op (snd po)) ops = true -> objs_ok F lmeets fs ops.
+Proof. exact plain_objs_ok. Qed.
+Print Assumptions C01_plain_objs_ok.
+
+Theorem C01_detached_wf :
+  forall (F : Type) (lvalidate lto_python : F -> pyval -> res pyval) (ldefault : F -> N -> pyval) (lcallable lflag : F -> bool) (vrun : N -> list (str * pyval) -> bool) (lmeets : F -> pyval -> Prop), (forall (f : F) (x v : pyval), lvalidate f x = Ok v -> lmeets f v) -> (forall (f : F) (n : N), lmeets f (ldefault f n)) -> forall (w : world) (sdyn : bool) (svs : list N) (sfs : list (str * node F)) (dops : list (list pstep * cop)), ok_fields F lvalidate lto_python ldefault lcallable lflag vrun sfs -> objs_ok F lmeets sfs dops -> wf_cfg F lmeets sfs (snd (detached F lvalidate lto_python ldefault lcallable lflag vrun w sdyn svs sfs dops)).
+Proof. exact detached_wf. Qed.
+Print Assumptions C01_detached_wf.
+
+Theorem C01_resolve_obj_ok :
+  forall (F : Type) (lvalidate lto_python : F -> pyval -> res pyval) (ldefault : F -> N -> pyval) (lcallable lflag : F -> bool) (vrun : N -> list (str * pyval) -> bool) (lmeets : F -> pyval -> Prop), (forall (f : F) (x v : pyval), lvalidate f x = Ok v -> lmeets f v) -> (forall (f : F) (n : N), lmeets f (ldefault f n)) -> forall (fs : list (str * node F)) (ps : list pstep) (x : xop F) (w : world) (o : cop), ok_fields F lvalidate lto_python ldefault lcallable lflag vrun fs -> xobj_ok F lmeets fs ps x -> snd (resolve F lvalidate lto_python ldefault lcallable lflag vrun w x) = Some o -> obj_ok F lmeets fs ps o.
+Proof. exact resolve_obj_ok. Qed.
+Print Assumptions C01_resolve_obj_ok.
+
+Theorem C01_step_x_wf :
+  forall (F : Type) (lvalidate lto_python : F -> pyval -> res pyval) (ldefault : F -> N -> pyval) (lcallable lflag : F -> bool) (vrun : N -> list (str * pyval) -> bool) (lmeets : F -> pyval -> Prop), (forall (f : F) (x v : pyval), lvalidate f x = Ok v -> lmeets f v) -> (forall (f : F) (n : N), lmeets f (ldefault f n)) -> forall (ps : list pstep) (x : xop F) (w : world) (pre : str) (c : icfg) (dyn : bool) (vs : list N) (fs : list (str * node F)) (w' : world) (c' : icfg) (oc1 : oc), ok_fields F lvalidate lto_python ldefault lcallable lflag vrun fs -> wf_cfg F lmeets fs c -> xobj_ok F lmeets fs ps x -> at_path_x F lvalidate lto_python ldefault lcallable lflag vrun ps w pre c dyn vs fs x = (w', c', oc1) -> wf_cfg F lmeets fs c'.
+Proof. exact step_x_wf. Qed.
+Print Assumptions C01_step_x_wf.
+
+Theorem C01_run_x_wf :
+  forall (F : Type) (lvalidate lto_python : F -> pyval -> res pyval) (ldefault : F -> N -> pyval) (lcallable lflag : F -> bool) (vrun : N -> list (str * pyval) -> bool) (lmeets : F -> pyval -> Prop), (forall (f : F) (x v : pyval), lvalidate f x = Ok v -> lmeets f v) -> (forall (f : F) (n : N), lmeets f (ldefault f n)) -> forall (ops : list (list pstep * xop F)) (w : world) (c : icfg) (dyn : bool) (vs : list N) (fs : list (str * node F)), ok_fields F lvalidate lto_python ldefault lcallable lflag vrun fs -> wf_cfg F lmeets fs c -> xobjs_ok F lmeets fs ops -> wf_cfg F lmeets fs (run_x F lvalidate lto_python ldefault lcallable lflag vrun ops w c dyn vs fs).
+Proof. exact run_x_wf. Qed.
+Print Assumptions C01_run_x_wf.
+
+Theorem C01_reachable_x_wf :
+  forall (F : Type) (lvalidate lto_python : F -> pyval -> res pyval) (ldefault : F -> N -> pyval) (lcallable lflag : F -> bool) (vrun : N -> list (str * pyval) -> bool) (lmeets : F -> pyval -> Prop), (forall (f : F) (x v : pyval), lvalidate f x = Ok v -> lmeets f v) -> (forall (f : F) (n : N), lmeets f (ldefault f n)) -> forall (ops : list (list pstep * xop F)) (w : world) (dyn : bool) (vs : list N) (fs : list (str * node F)), ok_fields F lvalidate lto_python ldefault lcallable lflag vrun fs -> xobjs_ok F lmeets fs ops -> wf_cfg F lmeets fs (run_x F lvalidate lto_python ldefault lcallable lflag vrun ops (fst (build_cfg F lvalidate lto_python ldefault lcallable lflag vrun w fs)) (snd (build_cfg F lvalidate lto_python ldefault lcallable lflag vrun w fs)) dyn vs fs).
+Proof. exact reachable_x_wf. Qed.
+Print Assumptions C01_reachable_x_wf.
+
+Theorem C01_inst_reachable_x_wf :
+  forall (vt : vtable) (ops : list (list pstep * xop leaf)) (w : world) (dyn : bool) (vs : list N) (fs : list (str * inode)), (forall (f : leaf) (n : N), inst_meets f (ldefault f n)) -> ok_fields leaf lvalidate lto_python ldefault l_callable lflag (vrun vt) fs -> xobjs_ok leaf inst_meets fs ops -> wf_cfg leaf inst_meets fs (run_x leaf lvalidate lto_python ldefault l_callable lflag (vrun vt) ops (fst (build_cfg leaf lvalidate lto_python ldefault l_callable lflag (vrun vt) w fs)) (snd (build_cfg leaf lvalidate lto_python ldefault l_callable lflag (vrun vt) w fs)) dyn vs fs).
+Proof. exact inst_reachable_x_wf. Qed.
+Print Assumptions C01_inst_reachable_x_wf.
+
+Theorem C01_inst_reachable_xs_wf :
+  forall (vt : vtable) (ops : list (list pstep * xop leaf)) (w : world) (dyn : bool) (vs : list N) (fs : list (str * inode)), (forall (f : leaf) (n : N), inst_meets f (ldefault f n)) -> ok_fields leaf lvalidate lto_python ldefault l_callable lflag (vrun vt) fs -> xs_ok leaf lvalidate lto_python ldefault l_callable lflag (vrun vt) inst_meets fs ops None -> wf_cfg leaf inst_meets fs (run_xs leaf lvalidate lto_python ldefault l_callable lflag (vrun vt) ops (fst (build_cfg leaf lvalidate lto_python ldefault l_callable lflag (vrun vt) w fs)) None (snd (build_cfg leaf lvalidate lto_python ldefault l_callable lflag (vrun vt) w fs)) dyn vs fs).
+Proof. exact inst_reachable_xs_wf. Qed.
+Print Assumptions C01_inst_reachable_xs_wf.
+
+(* histories in which the caller keeps an object that was refused, works on it through its own reference and offers it again (XAgain, Config.at_path_xs): the static condition xs_ok follows the schema of the object the caller may still hold *)
+
+Theorem C01_run_xs_wf :
+  forall (F : Type) (lvalidate lto_python : F -> pyval -> res pyval) (ldefault : F -> N -> pyval) (lcallable lflag : F -> bool) (vrun : N -> list (str * pyval) -> bool) (lmeets : F -> pyval -> Prop), (forall (f : F) (x v : pyval), lvalidate f x = Ok v -> lmeets f v) -> (forall (f : F) (n : N), lmeets f (ldefault f n)) -> forall (ops : list (list pstep * xop F)) (w : world) (last : kept F) (c : icfg) (dyn : bool) (vs : list N) (fs : list (str * node F)) (held : option (list (str * node F))), ok_fields F lvalidate lto_python ldefault lcallable lflag vrun fs -> wf_cfg F lmeets fs c -> kept_ok F lvalidate lto_python ldefault lcallable lflag vrun lmeets held last -> xs_ok F lvalidate lto_python ldefault lcallable lflag vrun lmeets fs ops held -> wf_cfg F lmeets fs (run_xs F lvalidate lto_python ldefault lcallable lflag vrun ops w last c dyn vs fs).
+Proof. exact run_xs_wf. Qed.
+Print Assumptions C01_run_xs_wf.
+
+Theorem C01_reachable_xs_wf :
+  forall (F : Type) (lvalidate lto_python : F -> pyval -> res pyval) (ldefault : F -> N -> pyval) (lcallable lflag : F -> bool) (vrun : N -> list (str * pyval) -> bool) (lmeets : F -> pyval -> Prop), (forall (f : F) (x v : pyval), lvalidate f x = Ok v -> lmeets f v) -> (forall (f : F) (n : N), lmeets f (ldefault f n)) -> forall (ops : list (list pstep * xop F)) (w : world) (dyn : bool) (vs : list N) (fs : list (str * node F)), ok_fields F lvalidate lto_python ldefault lcallable lflag vrun fs -> xs_ok F lvalidate lto_python ldefault lcallable lflag vrun lmeets fs ops None -> wf_cfg F lmeets fs (run_xs F lvalidate lto_python ldefault lcallable lflag vrun ops (fst (build_cfg F lvalidate lto_python ldefault lcallable lflag vrun w fs)) None (snd (build_cfg F lvalidate lto_python ldefault lcallable lflag vrun w fs)) dyn vs fs).
+Proof. exact reachable_xs_wf. Qed.
+Print Assumptions C01_reachable_xs_wf.
+
+(* the premise on declared defaults of lists of configurations (part of ok_fields: building the default never fails) is satisfiable, and violated by a default that does not load *)
+
+Theorem C01_flat_load_wf :
+  forall (F : Type) (lvalidate lto_python : F -> pyval -> res pyval) (lmeets : F -> pyval -> Prop), (forall (f : F) (x v : pyval), lvalidate f x = Ok v -> lmeets f v) -> forall (fs : list (str * node F)) (d : list (pyval * pyval)) (it it' : icfg) (o : oc), wf_cfg F lmeets fs it -> flat_load F lvalidate lto_python d it fs = (it', o) -> wf_cfg F lmeets fs it'.
+Proof. exact flat_load_wf. Qed.
+Print Assumptions C01_flat_load_wf.
+
+Theorem C01_ex_dflt_ok_fields :
+  ok_fields leaf lvalidate lto_python ldefault l_callable lflag (vrun []) ex_fs_dflt.
+Proof. exact ex_dflt_ok_fields. Qed.
+Print Assumptions C01_ex_dflt_ok_fields.
+
+Theorem C01_default_list_invalid :
+  snd (build_val leaf lvalidate lto_python ldefault l_callable lflag (vrun []) w0 (ex_dflt_node [PDict 0 [(PStr (sa "n"), PInt 99)]])) = VLeaf default_failed /\ snd (build_val leaf lvalidate lto_python ldefault l_callable lflag (vrun []) w0 (ex_dflt_node [PDict 0 [(PStr (sa "zz"), PInt 1)]])) = VLeaf default_failed /\ ~ ok_fields leaf lvalidate lto_python ldefault l_callable lflag (vrun []) [(sa "items", ex_dflt_node [PDict 0 [(PStr (sa "n"), PInt 99)]])].
+Proof. exact default_list_invalid. Qed.
+Print Assumptions C01_default_list_invalid.
